@@ -433,3 +433,27 @@ func (c *Ctx) Finish(out string) {
 }
 
 func hx(b []byte) string { return hex.EncodeToString(b) }
+
+// KnownOpen reports whether finding id is listed as open for this property in the
+// committed KNOWN_FINDINGS.json; only listed findings are excused, and the
+// caller must re-confirm them and report them with Known.
+func (c *Ctx) KnownOpen(id string) (string, bool) {
+	raw, err := os.ReadFile(c.Verif + "/KNOWN_FINDINGS.json")
+	if err != nil {
+		return "", false
+	}
+	var kf struct {
+		Findings []struct {
+			ID, Status, Property, Line string
+		} `json:"findings"`
+	}
+	if json.Unmarshal(raw, &kf) != nil {
+		return "", false
+	}
+	for _, f := range kf.Findings {
+		if f.ID == id && f.Status == "open" && f.Property == c.Prop {
+			return f.Line, true
+		}
+	}
+	return "", false
+}
